@@ -47,6 +47,18 @@ CHECKS = {
         "small constants (entries symbolic) and are discharged by monomial normalisation.",
         technique="contract-based deductive verification: AST->VC symbolic execution of the real functions, z3 (incl. polynomial normalisation)",
     ),
+    "C17": dict(
+        text=("The real per-group body of create_redist_dict (rd, is_outlier, grp_info, the proportional loop, the code's own "
+              "assertions, the leftover loop) is executed for one symbolic group - size n, dimension, base rank and all scores "
+              "symbolic - with two loop invariants over a finite map with a ghost Sum; post: every key gets an integer rank in "
+              "[1, dim] and the group sum is at most n * rank. Scores and every float expression are opaque reals (rd() "
+              "returns some integer), so the proof does not depend on a float model. create_groups is checked on small "
+              "instances with symbolic dims."),
+        design="7/C17",
+        note=TB + " I/O, string and jnp bookkeeping helpers (layers_and_axes, create_groups, score_fn, create_redist, alloc_fn) "
+        "are replaced by contracts; Sum over a finite map obeys the store axioms; sorted() returns the input in key order w.l.o.g.",
+        technique="contract-based deductive verification: AST->VC symbolic execution with loop invariants and ghost Sum, z3",
+    ),
 }
 
 NA_REASON = "check not built yet (build in progress); the planned contract kernel is described in DESIGN.md section 7"
